@@ -67,7 +67,12 @@ func (g *dgen) hazardType() *vh.TSpec {
 		// comparable unsupported kinds as map keys
 		h = vh.MapOf(vh.Unsup([]string{"array", "interface", "complex128", "chan", "uintptr"}[rapid.IntRange(0, 4).Draw(g.t, "ukey")]), str)
 	case 6:
-		h = vh.SliceOf(vh.PtrOf(vh.T([]vh.Kind{vh.KFloat32, vh.KFloat64}[rapid.IntRange(0, 1).Draw(g.t, "pf")])))
+		// pointers (one to three levels) to a float or a named float
+		ft := []*vh.TSpec{vh.T(vh.KFloat32), vh.T(vh.KFloat64), vh.NamedT("NFloat64"), vh.NamedT("NFloat32")}[rapid.IntRange(0, 3).Draw(g.t, "pf")]
+		for i := rapid.IntRange(1, 3).Draw(g.t, "pfdepth"); i > 0; i-- {
+			ft = vh.PtrOf(ft)
+		}
+		h = vh.SliceOf(ft)
 	case 7:
 		h = vh.SliceOf(vh.SliceOf(str))
 	case 8:
